@@ -7,7 +7,9 @@ package main
 import (
 	"flag"
 	"fmt"
+	"os"
 	"reflect"
+	"runtime"
 	"strings"
 	"sync"
 	"time"
@@ -32,6 +34,7 @@ func cmdStress(args []string) {
 	keep := fs.Int("keep", 120, "results kept per goroutine")
 	src := fs.String("src", "os", "os: the real crypto/rand.Reader; go: a goroutine-safe reader written in Go, so that the race detector sees every write into the library's buffers")
 	fs.Parse(args)
+	go stressWatchdog(time.Duration(*ms) * time.Millisecond)
 	if *src == "go" {
 		old := randReaderSwap(&syncReader{})
 		defer randReaderSwap(old)
@@ -243,6 +246,40 @@ func cmdStress(args []string) {
 	emc.Close()
 	emw.Close()
 	fmt.Printf("{\"cevents\":%d,\"wevents\":%d}\n", emc.N, emw.N)
+}
+
+// stressWatchdog ends a run that does not finish.  Every loop of the driver is bounded by the clock, so a run that is still going
+// long after its time is either starved by the machine or stuck.  It is called a hang only when goroutines have been WAITING
+// (not running, not runnable) for at least a minute inside library code; otherwise the run is merely slow (undecided).
+func stressWatchdog(per time.Duration) {
+	limit := 20*per + 150*time.Second
+	time.Sleep(limit)
+	buf := make([]byte, 8<<20)
+	buf = buf[:runtime.Stack(buf, true)]
+	stuck := 0
+	for _, g := range strings.Split(string(buf), "\n\n") {
+		head := g
+		if i := strings.Index(g, "\n"); i >= 0 {
+			head = g[:i]
+		}
+		waiting := strings.Contains(head, "minutes]") && !strings.Contains(head, "[running") && !strings.Contains(head, "[runnable") && !strings.Contains(head, "[syscall")
+		if waiting && strings.Contains(g, "go.1password.io/spg.") {
+			stuck++
+		}
+	}
+	fmt.Fprintf(os.Stderr, "\nSTRESS-WATCHDOG: run not finished after %v; %d goroutines waiting for minutes inside library code\n", limit, stuck)
+	if stuck > 0 {
+		fmt.Fprintf(os.Stderr, "STRESS-HANG\n%s\n", firstN(string(buf), 6000))
+		os.Exit(7)
+	}
+	os.Exit(8)
+}
+
+func firstN(s string, n int) string {
+	if len(s) > n {
+		return s[:n]
+	}
+	return s
 }
 
 // spareCap gives the caller-owned RequireSets slice spare capacity (as a slice built with append usually has): every copy
